@@ -184,6 +184,12 @@ pub fn run(a: &Args, report: &mut Report, stats: &mut RunStats, _extra: &mut Val
                     _ => monitors_for(&a.prop),
                 };
                 let mut h = History::new(&cfg, mons, report, tag.clone());
+                if a.prop == "C18" && hrng.chance(1, 5) {
+                    let n = hrng.range(110, 300);
+                    mon::vammw::run_vamm_busy(&mut hrng, &mut h, report, n);
+                    stats.absorb(&h, "W-VAMM");
+                    return;
+                }
                 let n = hrng.range(40, 160);
                 mon::vammw::run_vamm_history(&mut hrng, &mut h, report, n);
                 stats.absorb(&h, "W-VAMM");
